@@ -307,7 +307,7 @@ def T0 : Transc ℚ :=
   ⟨id, id, id, id, id, id, id, id, id, id, id, id, id, id, fun a _ => a, fun a _ => a, fun a _ => a, 0, 0, 0, 0, 0⟩
 def ctx0 : Ctx ℚ := ⟨⟨false, default, 0⟩, 0, 0, false, 0, 0, 0, 0⟩
 /-- a query at depth 5 -/
-def q0 : Query ℚ := ⟨⟨0, 0, 0⟩, ⟨0, 0, 0⟩, 5, 0⟩
+def q0 : Query ℚ := { pt := ⟨0, 0, 0⟩, nat := ⟨0, 0, 0⟩, depth := 5, gravityNorm := 0 }
 /-- depth range 0 … 10 (constant surfaces) -/
 def rng0 : DepthRange ℚ := ⟨Surface.constantOf 0, Surface.constantOf 10⟩
 
